@@ -23,6 +23,9 @@ Oracle (independent of the model, on what the implementation did):
     lies more than 1/10 pixel inside the traversed rectangles is processed;
   * every process call hands over exactly the members of one meta tile that need work (all with an empty cache, the
     uncached ones with a partly filled cache, [main tile] with refresh_all), in tile_list order; no call when none does;
+  * interrupted with real worker processes (real seed_task / TileWorkerPool / TileSeedWorker): every list handed over
+    before the interrupt is worked off before seed_task returns (oracle only);
+  * configured tasks (several grids per cache) only hand over tiles touching the point-wise transformed coverage;
   * TileWorkerPool.process puts the list into the queue exactly once however long the queue is full (oracle only);
   * the walker does not raise (finding C11-sliver, repaired: rectangles thinner than 2/10 pixel are generated on purpose);
     the progress file holds exactly the reported identifier.
@@ -603,13 +606,20 @@ def gen_exact_spec(rng):
             'cached': gen_cached(rng), 'womt': rng.random() < 0.75}
 
 
-def gen_pyramid_spec(rng):
+def gen_pyramid_spec(rng, irregular=False):
     """regular pyramid, several levels below the first level that has whole meta tiles inside a large polygon cut by a
     sloping edge: CONTAINED subtiles next to INTERSECTING ones with NONE tiles below them"""
     t = rng.choice([4, 8, 4, 5])
     n = rng.choice([3, 4, 4])
     base = 10 * rng.choice([1, 2, 4])
     res = [base * 2 ** (n - 1 - j) for j in range(n)]
+    if irregular:
+        # tiles of one level do not nest in the tiles of the level above: limit_sub_bbox matters
+        n = rng.choice([4, 5, 5])
+        seq = rng.choice([[2000, 1410, 1000, 710, 500, 350, 250], [810, 540, 360, 240, 160, 110], [1000, 700, 400, 300, 170, 100],
+                          [900, 600, 250, 200, 90]])
+        k0 = rng.randrange(0, len(seq) - n + 1)
+        res = seq[k0:k0 + n]
     k = rng.choice([1, 2])
     x0, y0 = rng.randrange(-2000, 2000), rng.randrange(-2000, 2000)
     gs = {'srs': 3857, 'bbox': [x0, y0, x0 + res[0] * t * k, y0 + res[0] * t * k], 'tile_size': [t, t], 'res': res,
@@ -1350,7 +1360,7 @@ layers:
 caches:
   c:
     sources: [upstream]
-    grids: [%(grid)s]
+    grids: %(grid)s
     meta_size: [%(msx)d, %(msy)d]
     meta_buffer: 0
 %(rescale)s
@@ -1361,6 +1371,18 @@ sources:
       url: http://127.0.0.1:9/service
       layers: foo
 grids:
+  fine_ll:
+    srs: 'EPSG:4326'
+    bbox: [0, 44, 20, 58]
+    res: [0.02, 0.005, 0.001]
+    tile_size: [64, 64]
+    origin: sw
+  fine_merc:
+    srs: 'EPSG:3857'
+    bbox: [0, 5400000, 2300000, 8000000]
+    res: [4000, 1000, 200]
+    tile_size: [64, 64]
+    origin: nw
   small:
     srs: 'EPSG:25832'
     bbox: [200000, 5200000, 1000000, 6000000]
@@ -1393,6 +1415,7 @@ class ConfRun(object):
         self.events, self.nreports, self.clock = [], 0, FakeTime()
         self.crashed, self.raised, self.store_problems = False, None, []
         self.log = None
+        self.by_task = {}
 
     def tick(self):
         if self.crash_at is not None and len(self.events) >= self.crash_at:
@@ -1422,10 +1445,12 @@ class ConfRun(object):
         class Pool(object):
             def __init__(self, task, worker_class, size=2, dry_run=False, progress_logger=None):
                 self.progress_logger = progress_logger
+                self.task = task
 
             def process(self, tiles, progress):
                 run.tick()
                 run.events.append(('proc', tuple(tuple(t) for t in tiles)))
+                run.by_task.setdefault(id(self.task), []).append(tuple(tuple(t) for t in tiles))
                 if self.progress_logger:
                     self.progress_logger.log_step(progress)
 
@@ -1466,10 +1491,20 @@ def conf_stream(ctx):
     from mapproxy.seed.config import load_seed_tasks_conf
     import random as _r
     rng = ctx.rng
-    for i in range(ctx.n(3, 24)):
+    for i in range(ctx.n(4, 24)):
         rescale = rng.choice(['    upscale_tiles: 1', '    downscale_tiles: 1', '    upscale_tiles: 2', ''])
         gridname = rng.choice(['GLOBAL_GEODETIC', 'small', 'GLOBAL_MERCATOR'])
-        if gridname == 'small':
+        multi = (i % 3 == 0) or rng.random() < 0.2
+        if multi:
+            # one cache on several grids with different SRS, coverage a thin strip in EPSG:4326: every task has to start
+            # from the configured coverage (one transformation), not from the coverage of the previous grid
+            glist = rng.choice([['small', 'fine_ll'], ['small', 'fine_merc', 'fine_ll'], ['small', 'fine_merc'], ['fine_ll', 'small']])
+            gridname = '[%s]' % ', '.join(glist)
+            levels = sorted(set([2, rng.randrange(0, 3)]))
+            x, y = rng.uniform(4.0, 6.0), rng.uniform(48.5, 53.0)
+            bbox, srs = [x, y, x + rng.uniform(7.0, 9.5), y + rng.uniform(0.06, 0.15)], 'EPSG:4326'
+            rescale = ''
+        elif gridname == 'small':
             levels = sorted(set(rng.randrange(0, 5) for _ in range(3)))
             x, y = rng.uniform(6.5, 11.0), rng.uniform(47.5, 53.0)
             bbox, srs = [x, y, x + rng.uniform(0.3, 2.0), y + rng.uniform(0.2, 1.5)], 'EPSG:4326'
@@ -1481,7 +1516,10 @@ def conf_stream(ctx):
         seeds = '  s1:\n    caches: [c]\n    coverages: [cov]\n    levels: %r\n' % (levels,)
         if two:
             seeds += '  s2:\n    caches: [c]\n    coverages: [cov]\n    levels: %r\n' % (levels[:2],)
-        conf_desc = {'grid': gridname, 'rescale': rescale.strip(), 'levels': levels, 'coverage': bbox, 'seeds': 2 if two else 1}
+        if not multi:
+            gridname = '[%s]' % gridname
+        conf_desc = {'grid': gridname, 'rescale': rescale.strip(), 'levels': levels, 'coverage': bbox, 'coverage_srs': srs,
+                     'seeds': 2 if two else 1}
         base = ctx.tmpdir('c11conf')
         mp, sdf = os.path.join(base, 'mapproxy.yaml'), os.path.join(base, 'seed.yaml')
         msx, msy = rng.choice([(2, 2), (1, 1), (3, 2)])
@@ -1497,6 +1535,55 @@ def conf_stream(ctx):
         except Exception as e:  # noqa
             import traceback
             ctx.problem('harness', 'configuration stream raised %r' % (e,), {'conf': conf_desc, 'trace': traceback.format_exc()[-1200:]})
+
+
+def conf_footprint_oracle(ctx, tasks, ref, desc):
+    """nothing else, independent of mapproxy's coverage transformation: a meta tile handed over by a configured task must
+    touch the bounding box of the configured coverage rectangle brought into the grid SRS point by point (pyproj, dense
+    sampling of the rectangle).  The code's own transformed bbox (envelope of 16 points) lies inside that box."""
+    import pyproj
+    x0, y0, x1, y1 = [float(v) for v in desc['coverage']]
+    nx = 400
+    sx, sy = [], []
+    for f in [i / 20.0 for i in range(21)]:
+        for i in range(nx + 1):
+            sx.append(x0 + (x1 - x0) * i / nx)
+            sy.append(y0 + (y1 - y0) * f)
+            sx.append(x0 + (x1 - x0) * f)
+            sy.append(y0 + (y1 - y0) * i / nx)
+    for ti, task in enumerate(tasks):
+        calls = ref.by_task.get(id(task), [])
+        if not calls:
+            continue
+        grid = task.grid
+        if desc['coverage_srs'] == grid.srs.srs_code:
+            E = (x0, y0, x1, y1)
+        else:
+            tr = pyproj.Transformer.from_crs(desc['coverage_srs'], grid.srs.srs_code, always_xy=True)
+            px, py = tr.transform(sx, sy)
+            pts = [(a, b) for a, b in zip(px, py) if a == a and b == b and abs(a) < 1e12 and abs(b) < 1e12]
+            if not pts:
+                continue
+            E = (min(p[0] for p in pts), min(p[1] for p in pts), max(p[0] for p in pts), max(p[1] for p in pts))
+        mg = task.tile_manager.meta_grid
+        tol = 1e-6 * max(abs(v) for v in E) + 1e-9
+        checked = 0
+        for call in calls:
+            for t in call[:1]:
+                if mg is not None:
+                    b = mg.meta_tile(t).bbox
+                else:
+                    b = grid.tile_bbox(t)
+                checked += 1
+                if b[2] < E[0] - tol or b[0] > E[2] + tol or b[3] < E[1] - tol or b[1] > E[3] + tol:
+                    ctx.fail('config-task-seeds-outside-coverage',
+                             'task %d (%s, grid SRS %s, levels %r) of the configuration handed over tile %r whose meta tile %r does not '
+                             'touch the configured coverage %r (%s), whose footprint in the grid SRS lies within %r; the task walks %r'
+                             % (ti, task.md['name'], grid.srs.srs_code, list(task.levels), t, [round(v, 4) for v in b], desc['coverage'],
+                                desc['coverage_srs'], [round(v, 4) for v in E], [round(v, 4) for v in task.coverage.bbox]),
+                             {'conf': desc, 'task': ti, 'tile': t, 'footprint_bbox': E, 'walked_bbox': list(task.coverage.bbox)})
+                    return
+        ctx.count('conf_footprint_checked_calls', checked)
 
 
 def conf_check(ctx, tasks, desc, base, rng):
@@ -1517,6 +1604,7 @@ def conf_check(ctx, tasks, desc, base, rng):
         return
     want = set(ref.processed())
     n = len(ref.events)
+    conf_footprint_oracle(ctx, tasks, ref, desc)
     ctx.case(('conf', json.dumps(desc, sort_keys=True, default=repr)), len(tasks) > 1, {'conf': desc, 'events': n, 'tiles': len(want)})
 
     def chain(crashes, p):
@@ -1553,6 +1641,80 @@ def conf_check(ctx, tasks, desc, base, rng):
             return
 
 
+def drain_cases(ctx):
+    """Interruption with REAL worker processes (real seed_task, real TileWorkerPool / TileSeedWorker over a multiprocessing
+    queue, slow tile creation): when seed_task leaves with KeyboardInterrupt every tile list that was handed to the pool
+    before must have been worked off (stop() sends the sentinels and joins) - the saved progress counts them as done."""
+    import contextlib
+    import multiprocessing
+    import time as _time
+    import mapproxy.seed.seeder as sd
+    from mapproxy.seed.util import ProgressLog
+    rng = ctx.rng
+    for n_before in ([2] if ctx.quick else [2, 3]):
+        base = ctx.tmpdir('c11drain')
+        done = os.path.join(base, 'done.txt')
+        spec = {'stream': 'exact', 'grid': {'srs': 3857, 'bbox': [0, 0, 10240, 10240], 'tile_size': [4, 4], 'res': [2560, 1280, 640],
+                                            'origin': 'll'},
+                'meta': [2, 2], 'levels': [1, 2], 'cov': {'type': 'bbox', 'bbox': [100, 100, 9000, 9000], 'srs': 3857}, 'skip': 0,
+                'real_tm': False, 'refresh_all': rng.random() < 0.5}
+        task, grid = build_task(spec)
+        ref = Run(task, spec, os.path.join(base, 'p0'), None, lambda i: True).go()
+        expected = [[list(t) for t in call] for call in ref.calls()[:n_before]]
+        if len(expected) < n_before:
+            ctx.problem('harness', 'drain case: task too small')
+            return
+        delay = 1.3
+
+        class SlowTM(StubTM):
+            @contextlib.contextmanager
+            def session(self):
+                yield
+
+            def load_tile_coords(self, tiles, *a, **kw):
+                _time.sleep(delay)
+                with open(done, 'a') as f:
+                    f.write(json.dumps([list(t) for t in tiles]) + '\n')
+        task.tile_manager = SlowTM(grid, spec['meta'])
+
+        class InterruptingLog(ProgressLog):
+            steps = 0
+
+            def log_step(self, progress):
+                self.steps += 1
+                if self.steps >= n_before:
+                    raise KeyboardInterrupt()
+        log = InterruptingLog(out=io.StringIO(), silent=True, verbose=True)
+        outcome = 'returned'
+        t0 = _time.time()
+        try:
+            sd.seed_task(task, concurrency=1, progress_logger=log)
+        except KeyboardInterrupt:
+            outcome = 'interrupted'
+        except Exception as e:  # noqa
+            outcome = 'raised %r' % (e,)
+        waited = _time.time() - t0
+        try:
+            finished = [json.loads(l) for l in open(done)]
+        except OSError:
+            finished = []
+        for pr in multiprocessing.active_children():
+            pr.terminate()
+            pr.join(2)
+        ctx.case(('drain', n_before, spec['refresh_all']), True, {'handed_before_interrupt': expected, 'finished_at_exit': finished})
+        ctx.count('interrupt_with_real_worker_processes')
+        if outcome != 'interrupted':
+            ctx.fail('interrupt-not-propagated', 'seed_task with a KeyboardInterrupt in the progress logger: %s' % outcome, {'task': spec})
+            continue
+        missing = [c for c in expected if c not in finished]
+        if missing:
+            ctx.fail('interrupted-run-abandons-handed-tiles',
+                     'seed_task was interrupted after %d tile lists had been handed to the worker pool (1 worker process, %.1f s per list); '
+                     'when it returned (after %.1f s) %d of them had not been worked off, e.g. %r - the progress already counts them as done'
+                     % (n_before, delay, waited, len(missing), missing[0][:4]),
+                     {'task': spec, 'handed': expected, 'finished': finished, 'seconds_per_list': delay})
+
+
 def load_corpus():
     out = []
     if os.path.isdir(CORPUS):
@@ -1575,6 +1737,11 @@ def run(ctx):
     except Exception as e:  # noqa
         ctx.problem('harness', 'pool oracle raised %r' % (e,))
     conf_stream(ctx)
+    try:
+        drain_cases(ctx)
+    except Exception as e:  # noqa
+        import traceback
+        ctx.problem('harness', 'drain case raised %r' % (e,), traceback.format_exc()[-1200:])
     out = {'defs': [], 'tdefs': [], 'geo': [], 'tree': []}
     specs = []
     for fn, c in load_corpus():
@@ -1584,8 +1751,8 @@ def run(ctx):
         specs.append(s)
     for _ in range(ctx.n(22, 230)):
         specs.append(gen_exact_spec(rng))
-    for _ in range(ctx.n(4, 30)):
-        specs.append(gen_pyramid_spec(rng))
+    for j in range(ctx.n(6, 40)):
+        specs.append(gen_pyramid_spec(rng, irregular=(j % 2 == 1)))
     for _ in range(ctx.n(2, 16)):
         specs.append(gen_bend_spec(rng))
     for _ in range(ctx.n(7, 60)):
